@@ -108,6 +108,34 @@ def _run_case(case, st):
             # restore
             p.zombie = False
             p.wstatus = None
+    elif k == "bigcmd":
+        # scale: an argument vector longer than any read buffer (32 KiB, 64 KiB, a page)
+        nargs, arglen, layout = case[1], case[2], case[3]
+        av = [(b"%d:" % i) + b"x" * max(0, arglen - len(b"%d:" % i)) for i in range(nargs)]
+        data = (b"\0".join(av) + b"\0") if layout == "nul" else b" ".join(av)
+        p.cmdline = data
+        got = outcome(pr.cmdline)
+        exp = ref_cmdline(data, False)
+        if got != ("ok", exp):
+            bad.append(("cmdline:long-vector", "%d arguments of %d bytes (%s, %d bytes in all): got %s" % (
+                nargs, arglen, layout, len(data), ("%d arguments, first %r last %r" % (len(got[1]), got[1][:1], got[1][-1:])) if got[0] == "ok" else repr(got))))
+    elif k == "bigenv":
+        n = case[1]
+        data = b"".join(b"VAR%d=%s\0" % (i, b"v" * (i % 97)) for i in range(n))
+        p.environ = data
+        got = outcome(pr.environ)
+        exp = {"VAR%d" % i: "v" * (i % 97) for i in range(n)}
+        if got != ("ok", exp):
+            bad.append(("environ:large-block", "%d entries (%d bytes): got %s" % (n, len(data), len(got[1]) if got[0] == "ok" else repr(got))))
+    elif k == "longlink":
+        # a link target whose last component is close to NAME_MAX / whose length is close to PATH_MAX, unlinked
+        which, shape = case[1], case[2]
+        name = {"name250": "/tmp/" + "n" * 250, "name245": "/tmp/" + "n" * 245, "path4090": "/" + "/".join(["d" * 200] * 20) + "/" + "e" * 69}[shape]
+        setattr(p, which, name + " (deleted)")
+        p.cmdline = b"x\0"
+        got = outcome(getattr(pr, which))
+        if got != ("ok", name):
+            bad.append(("link:%s:name-near-the-kernel-limits" % which, "%s -> target of %d bytes + ' (deleted)': got %r" % (which, len(name), freeze(got) if got[0] != "ok" else got[1][:40] + "...")))
     elif k == "zcmdline":
         p.comm = case[1]
         w.exit(p.pid)
@@ -215,7 +243,7 @@ def _run_case(case, st):
 def run_case(case, st):
     # exe() is cached for the life of the object by the statement itself; a process that is made to vanish inside the case
     # leaves the object of later cases in a state the case did not set up
-    return LongLived.both(_run_case, case, st, skip=lambda c: (c[0] == "link" and (c[1] == "exe" or c[3] == "gone")) or c[0] == "name", repoint=True)
+    return LongLived.both(_run_case, case, st, skip=lambda c: (c[0] == "link" and (c[1] == "exe" or c[3] == "gone")) or c[0] == "name" or (c[0] == "longlink" and c[1] == "exe"), repoint=True)
 
 
 def worker(chunk):
@@ -240,6 +268,13 @@ def build_cases(thorough):
             cases.append(("cmdline", sp, False))             # title overwritten, no NUL at all
             cases.append(("cmdline", sp + b"\0", False))     # spaces as separators, trailing NUL only
     cases.append(("cmdline", b"/bin/x\0", True))
+    for nargs, arglen, layout in ((6000, 14, "nul"), (3, 50000, "nul"), (1, 32769, "nul"), (2, 16384, "nul"), (9000, 8, "sp"), (4097, 8, "nul")):
+        cases.append(("bigcmd", nargs, arglen, layout))
+    for n_ in (700, 5000):
+        cases.append(("bigenv", n_))
+    for which_ in ("exe", "cwd"):
+        for shape_ in ("name250", "name245", "path4090"):
+            cases.append(("longlink", which_, shape_))
     for zc in (b"Web Content", b"tmux: server", b"a) S (b", b"x y z", b"\tq"):
         cases.append(("zcmdline", zc))
     for comm in (b"a" * 15, b"long-program-na"):
